@@ -13,8 +13,8 @@
    the same object says nothing new and is dropped first (the engine re-writes objects freely).
 
    What the fold remembers about its scope: the last write of every object (only to drop repeats), whether
-   the scope's own Running write was seen, whether Wait has returned, and the tracks of its bypass,
-   continuous and deferred groups.
+   the scope's own Running write was seen, whether Wait has returned, the failure reason of the engine's last
+   plan write, and the tracks of its bypass, continuous and deferred groups.
      entered m = the scope started and was not bypassed: it has no bypass group, or its bypass run is over
                  and failed.
 
@@ -47,8 +47,8 @@
      15 (plan) the reason of the plan Wait returned is the reason the engine wrote (S4 of DESIGN section 7:
         the stores did not read the reason back).
    "Keeps being re-run" is a liveness statement; its safety half is clause 2 together with the theorem
-   c07_thread_alive of props/C07.v (while a scope executes its continuous group may begin a run unless one
-   failed); that re-runs DO happen on the implementation is measured by the driver (lib/props/c07.py: runs
+   c07_thread_alive_plan / _block of props/C07.v (while a scope executes, its continuous thread is live and
+   its group may begin a run unless one failed); that re-runs DO happen on the implementation is measured by the driver (lib/props/c07.py: runs
    per continuous group, reported by mon_cont_deferred_diag).  Left to other checks: the order of the other
    stages (C01), gating by the initial continuous run (C06), tolerance (C03), fin = durable image (C04/C08). *)
 From Coercion.Base Require Import Plan.
